@@ -1,12 +1,13 @@
 (* MatOps2.v -- further sparse-matrix kernels of the builtin backend, definitions only.
    spgemm_rmerge  (amgcl/detail/spgemm.hpp:129-504): merge_rows (both variants),
                   prod_row_width (symbolic pass), prod_row (numeric pass);
-   pointwise_matrix (amgcl/backend/builtin.hpp:500-661): both passes of the block
-                  scan exactly as coded (the entry that ends the scan of a block
-                  column is consumed: [beg++] precedes the [c >= col_end] test);
-   spectral_radius (builtin.hpp:779-909): Gershgorin branch (with the per-thread
-                  [dia] variable that survives from row to row) and the power
-                  method relative to an explicit start vector;
+   pointwise_matrix (amgcl/backend/builtin.hpp:500-663): both passes of the block
+                  scan exactly as coded (current code, after fix 2f75975), and the
+                  pre-fix scan as [*_old] (the entry that ended the scan of a block
+                  column was consumed: [beg++] preceded the [c >= col_end] test);
+   spectral_radius (builtin.hpp:779-909): Gershgorin branch (current code: [dia] is
+                  reset for every row) and the power method relative to an explicit
+                  start vector (its [dia] still survives from row to row);
    crs constructors (builtin.hpp:76-172): from (ptr,col,val) ranges / row-iterator
                   adapters / copy.
    A complex-rational Scalar instance (non-trivial adjoint) for the transpose tie.
@@ -133,15 +134,16 @@ Definition upd_cur (cur : option nat) (c : nat) : option nat :=
 Definition pw_init (js : list row) : option nat :=
   fold_left (fun cur r => match r with [] => cur | e :: _ => upd_cur cur (fst e) end) js None.
 
-(* inner while loop over one row of the block: consume entries; an entry with
-   c >= col_end is CONSUMED TOO and ends the loop.  acc = (first, cur_val) as option.
+(* inner while loop over one row of the block: consume the entries with c < col_end; the
+   first entry with c >= col_end ends the loop and is NOT consumed (++beg follows the test;
+   /repo commit 2f75975).  acc = (first, cur_val) as option.
    returns (rest of the row, cur, acc) *)
 Fixpoint pw_scan_row (col_end : nat) (r : row) (cur : option nat) (acc : option S)
   : row * option nat * option S :=
   match r with
   | [] => ([], cur, acc)
   | (c, v) :: tl =>
-    if Nat.leb col_end c then (tl, upd_cur cur c, acc)
+    if Nat.leb col_end c then ((c, v) :: tl, upd_cur cur c, acc)
     else pw_scan_row col_end tl cur
            (Some (match acc with None => sabs v | Some m => smax m (sabs v) end))
   end.
@@ -175,7 +177,7 @@ Fixpoint pw_loop (fuel bs : nat) (cur : option nat) (js : list row) : row :=
 Fixpoint pwc_scan_row (col_end : nat) (r : list nat) (cur : option nat) : list nat * option nat :=
   match r with
   | [] => ([], cur)
-  | c :: tl => if Nat.leb col_end c then (tl, upd_cur cur c) else pwc_scan_row col_end tl cur
+  | c :: tl => if Nat.leb col_end c then (c :: tl, upd_cur cur c) else pwc_scan_row col_end tl cur
   end.
 Fixpoint pwc_pass (col_end : nat) (js : list (list nat)) (cur : option nat)
   : list (list nat) * option nat :=
@@ -240,23 +242,106 @@ Definition pointwise_spec (A : crs) (bs : nat) : crs :=
   let mp := Nat.div (ncols A) bs in
   mkCrs mp (map (pw_spec_row bs mp) (groups np bs (rows A))).
 
+(* --- the scan as it was BEFORE /repo commit 2f75975 (kept for the refutation theorems
+   C08_pointwise_old_refuted and ..._pattern): an entry with c >= col_end is CONSUMED TOO and ends the loop.  acc = (first, cur_val) as option.
+   returns (rest of the row, cur, acc) *)
+Fixpoint pw_scan_row_old (col_end : nat) (r : row) (cur : option nat) (acc : option S)
+  : row * option nat * option S :=
+  match r with
+  | [] => ([], cur, acc)
+  | (c, v) :: tl =>
+    if Nat.leb col_end c then (tl, upd_cur cur c, acc)
+    else pw_scan_row_old col_end tl cur
+           (Some (match acc with None => sabs v | Some m => smax m (sabs v) end))
+  end.
+
+(* for(k < block_size) over the rows of the block *)
+Fixpoint pw_pass_old (col_end : nat) (js : list row) (cur : option nat) (acc : option S)
+  : list row * option nat * option S :=
+  match js with
+  | [] => ([], cur, acc)
+  | r :: rest =>
+    let '(r', cur1, acc1) := pw_scan_row_old col_end r cur acc in
+    let '(rest', cur2, acc2) := pw_pass_old col_end rest cur1 acc1 in
+    (r' :: rest', cur2, acc2)
+  end.
+
+(* while(!done): fuel = number of stored entries of the block row + 1 is enough *)
+Fixpoint pw_loop_old (fuel bs : nat) (cur : option nat) (js : list row) : row :=
+  match fuel with
+  | O => []
+  | Datatypes.S f =>
+    match cur with
+    | None => []
+    | Some c0 =>
+      let cc := Nat.div c0 bs in
+      let '(js', cur', acc) := pw_pass_old ((cc + 1) * bs) js None None in
+      (cc, match acc with None => s0 | Some m => m end) :: pw_loop_old f bs cur' js'
+    end
+  end.
+
+(* the counting pass (first omp region): same control flow without values *)
+Fixpoint pwc_scan_row_old (col_end : nat) (r : list nat) (cur : option nat) : list nat * option nat :=
+  match r with
+  | [] => ([], cur)
+  | c :: tl => if Nat.leb col_end c then (tl, upd_cur cur c) else pwc_scan_row_old col_end tl cur
+  end.
+Fixpoint pwc_pass_old (col_end : nat) (js : list (list nat)) (cur : option nat)
+  : list (list nat) * option nat :=
+  match js with
+  | [] => ([], cur)
+  | r :: rest =>
+    let '(r', cur1) := pwc_scan_row_old col_end r cur in
+    let '(rest', cur2) := pwc_pass_old col_end rest cur1 in
+    (r' :: rest', cur2)
+  end.
+Fixpoint pwc_loop_old (fuel bs : nat) (cur : option nat) (js : list (list nat)) : nat :=
+  match fuel with
+  | O => 0
+  | Datatypes.S f =>
+    match cur with
+    | None => 0
+    | Some c0 =>
+      let cc := Nat.div c0 bs in
+      let '(js', cur') := pwc_pass_old ((cc + 1) * bs) js None in
+      Datatypes.S (pwc_loop_old f bs cur' js')
+    end
+  end.
+
+Definition pw_block_row_old (bs : nat) (js : list row) : row :=
+  pw_loop_old (pw_fuel js) bs (pw_init js) js.
+Definition pw_block_count_old (bs : nat) (js : list row) : nat :=
+  pwc_loop_old (pw_fuel js) bs (pw_init js) (map (map fst) js).
+
+(* None = precondition "Matrix size should be divisible by block_size" fails.
+   bs = 0 divides by zero in the C++: excluded (None as well). *)
+Definition pointwise_matrix_old (A : crs) (bs : nat) : option crs :=
+  if Nat.eqb bs 0 then None else
+  let np := Nat.div (nrows A) bs in
+  if negb (Nat.eqb (np * bs) (nrows A)) then None else
+  Some (mkCrs (Nat.div (ncols A) bs) (map (pw_block_row_old bs) (groups np bs (rows A)))).
+Definition pointwise_counts_old (A : crs) (bs : nat) : list nat :=
+  map (pw_block_count_old bs) (groups (Nat.div (nrows A) bs) bs (rows A)).
+
+
 (* ------------------------------------------------------------------ *)
 (* spectral_radius                                                     *)
 
 Definition s2 : S := s1 + s1.      (* static_cast<scalar_type>(2) *)
 
-(* one row of the Gershgorin loop; state = (emax, dia), dia survives from row to row *)
-Definition gersh_row (scale : bool) (st : S * S) (ir : nat * row) : S * S :=
-  let '(emax, dia) := st in
+(* one row of the Gershgorin loop; [dia] is a local of the row, initialised to the identity
+   (/repo commit f082a42; before that it was a thread-private variable that survived from row
+   to row) and overwritten by every stored entry with column = row index *)
+Definition gersh_row (scale : bool) (emax : S) (ir : nat * row) : S :=
   let sd := fold_left (fun (sd : S * S) e =>
                          (fst sd + sabs (snd e),
                           if scale && Nat.eqb (fst e) (fst ir) then snd e else snd sd))
-                      (snd ir) (s0, dia) in
+                      (snd ir) (s0, s1) in
   let s := if scale then fst sd * sabs (sinv (snd sd)) else fst sd in
-  (smax emax s, snd sd).
-(* one thread: emax = 0, dia = identity, then its chunk of rows *)
+  smax emax s.
+(* one thread: emax = 0, then its chunk of rows *)
 Definition gersh_chunk (scale : bool) (irs : list (nat * row)) : S :=
-  fst (fold_left (gersh_row scale) irs (s0, s1)).
+  fold_left (gersh_row scale) irs s0.
 (* all threads ([lens] = chunk lengths of the static schedule), combined by max *)
 Definition spectral_radius_gersh (scale : bool) (lens : list nat) (A : crs) : S :=
   let radius := fold_left (fun r ch => smax r (gersh_chunk scale ch))
